@@ -1,7 +1,7 @@
 (** C19 -- Inspection tools report what is actually in the file.
     Property theorems only; each is closed by [exact] of a lemma from ToolsProofs.v.
     S = ToolsSpec.v, M = ToolsModel.v over the definitions regenerated from the sources (gen/Gen_Tools.v). *)
-From Coq Require Import ZArith List Bool.
+From Coq Require Import ZArith List Bool Lia.
 Require Import H4.ToolsCInt H4.gen.Gen_Tools H4.ToolsSpec H4.ToolsModel H4.ToolsProofs.
 Import ListNotations.
 Local Open Scope Z_scope.
@@ -108,19 +108,62 @@ Theorem diff_gr_component_count_refuted : exists v1 v2, v1 <> v2 /\ length v1 = 
 Proof. exact diff_gr_orig_refuted_lemma. Qed.
 Print Assumptions diff_gr_component_count_refuted.
 
-(** PARTIAL -- the full statement "hdiff exits 0 exactly when the files hold equal comparable content" is
-      forall f1 f2, comparable f1 f2 -> hdiff_exit_m f1 f2 = spec_exit f1 f2.
-    Proved here: the direction "equal content -> nothing reported, exit 0 = spec_exit".  The other direction is
-    proved in pieces above (changed data value of an SDS, an image, a Vdata; an added/removed object is refuted, see
-    match_added_object_refuted); missing for
-    the single statement: the lemma that one changed value in a local (sds_attrs_diff) or global (gattr_diff_m)
-    attribute makes the count positive, and the assembly of the pieces over the object list.  Those two cases
-    rest on the correspondence (mutation kinds attr-S, attr-G) only. *)
-Theorem hdiff_exit_iff_same_content_partial : forall f1 f2,
+(** ** hdiff reports no difference and exits 0 exactly when two comparable files hold equal content.
+    [comparable] (ToolsModel.v): same object names in the same order, objects pairwise of the same class, type and
+    shape with in-range (or floating) values and attributes of the same name/type/length, global attribute names
+    unique.  Outside it: "Comparison not supported" objects (excluded by the property), and objects present in one
+    file only (refuted above, known finding). *)
+Theorem hdiff_exit_iff_same_content : forall f1 f2, comparable f1 f2 ->
+  (hdiff_m f1 f2 = 0 <-> same_content f1 f2 = true) /\ hdiff_exit_m f1 f2 = spec_exit f1 f2.
+Proof. exact hdiff_exit_iff_same_content_lemma. Qed.
+Print Assumptions hdiff_exit_iff_same_content.
+
+(** equal content => exit 0 needs no comparability at all *)
+Theorem hdiff_same_content_exit0 : forall f1 f2,
   NoDup (map a_name (f_gattrs f1)) -> NoDup (map a_name (f_gattrs f2)) ->
   same_content f1 f2 = true -> hdiff_m f1 f2 = 0 /\ hdiff_exit_m f1 f2 = spec_exit f1 f2.
 Proof. exact same_content_exit0_lemma. Qed.
-Print Assumptions hdiff_exit_iff_same_content_partial.
+Print Assumptions hdiff_same_content_exit0.
+
+(** ** Number-type flavours (native, little-endian): array_diff selects its branch by the base type (regenerated
+    controlling expression `type & DFNT_MASK`; before fix 3f7759d it was `type`: "bad type", nothing compared);
+    hdp's select_func picks the same routine for every flavour (regenerated `nt & 0xff`). *)
+Theorem array_diff_flavour_independent : forall nt, ad_kind nt = ad_kind (Z.land nt DFNT_MASK).
+Proof. exact ad_kind_flavour_lemma. Qed.
+Print Assumptions array_diff_flavour_independent.
+
+Theorem hdp_routine_flavour_independent : forall base flag,
+  In base [20; 21; 22; 23; 24; 25] -> In flag [0; DFNT_NATIVE; DFNT_LITEND] ->
+  hdp_routine (Z.lor base flag) = hdp_routine base /\ hdp_routine base <> None.
+Proof. exact hdp_routine_flavour_lemma. Qed.
+Print Assumptions hdp_routine_flavour_independent.
+
+(** ** Floating-point branches.  IEEE arithmetic is not modelled; the regenerated *width skeleton* of the
+    difference expression is: over ANY value domain with per-format rounding in which the rounded difference of
+    two numbers of one format is zero only if they are equal (gradual underflow), the float32 and the float64
+    branch compute a difference that is zero iff the elements are equal -- i.e. the difference is taken in the
+    element type's own width.  (fabsf((float32)(a-b)) in the float64 branch gives the skeleton
+    FAbs (FNarrow 32 (FSub 64 FA FB)) and this proof fails.) *)
+Theorem array_diff_float_own_width :
+  forall (V : Type) (vsub : V -> V -> V) (vabs : V -> V) (vzero : V) (rnd : Z -> V -> V) (F : Z -> V -> Prop),
+  (forall w a b, F w a -> F w b -> (rnd w (vsub a b) = vzero <-> a = b)) ->
+  (forall x, vabs x = vzero <-> x = vzero) ->
+  (forall w x, F w x -> rnd w x = x) -> (forall w x, F w (rnd w x)) -> (forall w x, F w x -> F w (vabs x)) ->
+  (forall a b, F adf32_elt_bits a -> F adf32_elt_bits b -> (feval V vsub vabs rnd adf32_diff a b = vzero <-> a = b)) /\
+  (forall a b, F adf64_elt_bits a -> F adf64_elt_bits b -> (feval V vsub vabs rnd adf64_diff a b = vzero <-> a = b)).
+Proof.
+  intros V vsub vabs vzero rnd F H1 H2 H3 H4 H5. split.
+  - exact (float32_own_width_lemma V vsub vabs vzero rnd F H1 H2 H3 H4 H5).
+  - exact (float64_own_width_lemma V vsub vabs vzero rnd F H1 H2).
+Qed.
+Print Assumptions array_diff_float_own_width.
+
+(** with that, the executable model of the floating branches (flag iff the bit patterns differ; selected only when
+    the regenerated skeleton stays in the element's width) reports exactly the differing positions *)
+Theorem array_diff_float_refines_spec : forall nt a b m, ad_kind nt = ADFloat ->
+  array_diff_m nt (opts0 m) a b = (spec_count a b, spec_diff_positions 0 a b).
+Proof. exact ad_float_refines_spec_lemma. Qed.
+Print Assumptions array_diff_float_refines_spec.
 
 (** ** hdp: sdsdumpfull's start[]/left[] walk visits the rows in row-major order, terminates exactly after the
     last row (the result is not an artefact of the fuel), and the row-major linearisation is its inverse. *)
@@ -201,4 +244,57 @@ Example ex_import : good_sep [10] /\ good_sep [32; 32] /\
 Proof.
   split; [split; [discriminate | repeat constructor]|]. split; [split; [discriminate | repeat constructor]|].
   vm_compute. reflexivity.
+Qed.
+
+Definition ex_file3 : file :=
+  mkfile [mkattr [110] 24 [7]; mkattr [116] 4 [97; 99]]
+         [mkobj [103] BVg; mkobj [105] (BGr 21 2 2 1 [1; 2; 3; 4]); mkobj [115] (BSds 16404 [2; 2] [-128; 0; 1; 126] [mkattr [117] 22 [6]]);
+          mkobj [118] (BVd 2 [([120], (22, 1))] [5; 6])].
+Definition ex_file1' : file :=
+  mkfile (f_gattrs ex_file1)
+         [mkobj [103] BVg; mkobj [105] (BGr 21 2 2 1 [1; 2; 3; 4]); mkobj [115] (BSds 16404 [2; 2] [-128; 0; 1; 127] [mkattr [117] 22 [5]]);
+          mkobj [118] (BVd 2 [([120], (22, 1))] [5; 6])].
+
+Example ex_comparable : comparable ex_file1' ex_file3 /\ hdiff_m ex_file1' ex_file3 = 3 /\ same_content ex_file1' ex_file3 = false /\
+  comparable ex_file1' ex_file1' /\ hdiff_m ex_file1' ex_file1' = 0.
+Proof.
+  assert (D : forall v, Forall (in_range (-128) 127) v -> elem_domain 16404 v).
+  { intros v H. left. exists (-128), 127. split; [reflexivity | assumption]. }
+  assert (D8 : forall v, Forall (in_range 0 255) v -> elem_domain 21 v).
+  { intros v H. left. exists 0, 255. split; [reflexivity | assumption]. }
+  assert (R : forall lo hi l, forallb (fun v => (lo <=? v) && (v <=? hi)) l = true -> Forall (in_range lo hi) l).
+  { intros lo hi l H. apply Forall_forall. intros x Hx. rewrite forallb_forall in H. specialize (H x Hx).
+    apply andb_true_iff in H. destruct H as [A B]. apply Z.leb_le in A, B. split; assumption. }
+  assert (ND : NoDup (map a_name (f_gattrs ex_file1))) by (repeat constructor; simpl; intuition discriminate).
+  assert (ND3 : NoDup (map a_name (f_gattrs ex_file3))) by (repeat constructor; simpl; intuition discriminate).
+  split; [|split; [vm_compute; reflexivity|split; [vm_compute; reflexivity|split; [|vm_compute; reflexivity]]]].
+  - split; [reflexivity|]. split; [|split; assumption].
+    repeat constructor; cbn [o_body comparable_body]; try tauto;
+      repeat split; try reflexivity; try discriminate; try (apply D, R; reflexivity); try (apply D8, R; reflexivity);
+      try (vm_compute; discriminate);
+      try (exists 0, 255; split; [reflexivity | apply R; reflexivity]);
+      try (exists (-128), 127; split; [reflexivity | apply R; reflexivity]).
+  - split; [reflexivity|]. split; [|split; assumption].
+    repeat constructor; cbn [o_body comparable_body]; try tauto;
+      repeat split; try reflexivity; try discriminate; try (apply D, R; reflexivity); try (apply D8, R; reflexivity);
+      try (vm_compute; discriminate);
+      try (exists 0, 255; split; [reflexivity | apply R; reflexivity]);
+      try (exists (-128), 127; split; [reflexivity | apply R; reflexivity]).
+Qed.
+
+(** the hypotheses of array_diff_float_own_width are satisfiable (exact arithmetic as the value domain) *)
+Example ex_float_hypotheses :
+  (forall a b : Z, feval Z Z.sub Z.abs (fun _ x => x) adf64_diff a b = 0 <-> a = b) /\
+  ad_kind DFNT_FLOAT32 = ADFloat /\ ad_kind (Z.lor DFNT_LITEND DFNT_FLOAT64) = ADFloat /\
+  array_diff_m DFNT_FLOAT64 (opts0 2) [4338; 4607182418800017408] [4339; 4607182418800017408] = (1, [0]).
+Proof.
+  split.
+  - intros a b.
+    refine (proj2 (array_diff_float_own_width Z Z.sub Z.abs 0 (fun _ x => x) (fun _ _ => True) _ _ _ _ _) a b I I).
+    + intros; split; intros; lia.
+    + intros; split; intros; lia.
+    + reflexivity.
+    + exact (fun _ _ => I).
+    + exact (fun _ _ _ => I).
+  - repeat split; vm_compute; reflexivity.
 Qed.
